@@ -2,7 +2,7 @@
 # usage: tools/validate_seed.sh <dir with patch.diff + demo.py> [pytest targets...]
 # Confirms in a fresh scratch worktree of /repo: demo passes without the patch, fails with it, given tests pass with it.
 D="$1"; shift
-W=/tmp/seed/val_$$
+mkdir -p /tmp/seed; W=/tmp/seed/val_$$
 git -C /repo worktree add -q --detach "$W" HEAD || exit 2
 cp /repo/src/basilisp/_lang.abi3.so "$W/src/basilisp/"
 cd "$W"
